@@ -1,5 +1,6 @@
 import os
 import json
+import numpy as np
 from optiland.optic import Optic
 
 
@@ -38,8 +39,20 @@ def save_obj_to_json(obj, filepath):
         obj: The object to save.
         filepath: The path to the JSON file.
     """
+    def plain(value):
+        # numpy scalars / arrays that reached the dictionary through the
+        # public API (fields from np.arange, is_stop=(i == k), ...)
+        if isinstance(value, np.generic):
+            return value.item()
+        if isinstance(value, np.ndarray):
+            return value.tolist()
+        raise TypeError(f'Object of type {type(value).__name__} is not '
+                        'JSON serializable')
+
+    # serialise first: a failure must not truncate an existing file
+    text = json.dumps(obj.to_dict(), indent=4, default=plain)
     with open(filepath, 'w') as f:
-        json.dump(obj.to_dict(), f, indent=4)
+        f.write(text)
 
 
 def load_optiland_file(filepath):
